@@ -5,6 +5,7 @@ package ssh
 import (
 	"bufio"
 	"bytes"
+	"crypto/ed25519"
 	"io"
 
 	"golang.org/x/crypto/internal/verifrt"
@@ -192,7 +193,14 @@ func (c30ClientKex) Client(p packetConn, rand io.Reader, magics *handshakeMagics
 	if err != nil {
 		return nil, err
 	}
-	r.HostKey = ed25519PublicKey(make([]byte, 32)).Marshal()
+	if verifrt.Symbolic() {
+		r.HostKey = ed25519PublicKey(make([]byte, 32)).Marshal()
+		return r, nil
+	}
+	// natively the real signature check runs: give it a genuine ed25519 host key and signature
+	priv := ed25519.NewKeyFromSeed(make([]byte, ed25519.SeedSize))
+	r.HostKey = ed25519PublicKey(priv.Public().(ed25519.PublicKey)).Marshal()
+	r.Signature = Marshal(&Signature{Format: KeyAlgoED25519, Blob: ed25519.Sign(priv, r.H)})
 	return r, nil
 }
 
